@@ -670,3 +670,26 @@ def check_carriers(ctx, rule, types):
         ctx.ob(rule, "wire-slot:%s" % ty, d["kind"] == "protected" and d["slot"] == 0,
                "%s.protected = ProtectedHeader::from_cbor_bstr(<array slot 0>)? - the received bytes are retained for the structure" % ty,
                where=f.span, detail={"found": d})
+
+
+def check_derived_impls(ctx, rule, traits, only_structs=False):
+    """the analyses read `x.clone()` as x, `T::default()` as the all-empty T and `a == b` as structural equality - which is
+    what `#[derive]` generates.  Every impl of the named std traits for a crate-local type must therefore be compiler-derived;
+    a hand-written one is not analysed and is reported (a `Clone for ProtectedHeader` that drops `original_data` changes what
+    every structure function is handed)."""
+    prog = ctx.prog
+    n = 0
+    manual = []
+    for i in prog.impls:
+        tr = i.get("trait")
+        if tr not in traits or not i.get("self_adt"):
+            continue
+        adt = prog.adts.get(i["self_adt"]) or {}
+        if only_structs and len(adt.get("variants", [])) != 1:
+            continue
+        n += 1
+        if not i.get("from_expansion"):
+            manual.append("%s for %s (%s)" % (tr.split("::")[-1], i["self_ty"], i.get("span")))
+    ctx.ob(rule, "derived:%s" % "+".join(sorted(t.split("::")[-1] for t in traits)), not manual and n > 0,
+           "all %d impls of %s for the crate's own types are compiler-derived (structural), as the analyses assume" % (
+               n, " / ".join(sorted(t.split("::")[-1] for t in traits))), detail={"hand_written": manual})
